@@ -105,6 +105,14 @@ let () =
            let pre = if pre = "-" then "" else pre in
            let tok = label_token (codes pre) (codes name) width in
            Printf.printf "%s\n" (text tok)
+         | "DISK" ->
+           (* DISK rfreq freq it_restart <cfg> n it.. -> number of lines on disk after each calc (no spill) *)
+           let rf = nz () in let freq = nz () in let itr = nz () in let c0 = cfg () in let n = ni () in
+           let its = List.init n (fun _ -> nz ()) in
+           let s0 = { t_freq = freq; t_cfg = c0; t_labels = true; t_it_restart = itr } in
+           let rec prefixes acc = function [] -> [] | x :: r -> let a = acc @ [x] in a :: prefixes a r in
+           let counts = List.map (fun pre -> let (d, _) = buf_run [] [] (traj_bevents rf s0 pre) in List.length d) (prefixes [] its) in
+           Printf.printf "%s\n" (String.concat " " (List.map string_of_int counts))
          | "ABFHIST" ->
            let hf = nz () in let n = ni () in
            let w = List.init n (fun _ -> nz ()) in
